@@ -51,15 +51,15 @@ type AVal struct {
 
 // AImp describes one symbol of the environment (a declaration of another file that this file refers to).
 type AImp struct {
-	Full    string   `json:"full"`
-	K       string   `json:"k"`       // "m" | "e"
-	File    string   `json:"file"`    // path of the declaring file
-	Vis     bool     `json:"vis"`     // covered by the file's imports (directly or through public imports)
-	Closed  bool     `json:"closed"`  // enums
-	Vals    []AVal   `json:"vals"`    // enums
-	XR      [][2]int `json:"xr"`      // messages: extension ranges
-	MSet    bool     `json:"mset"`    // messages
-	MapEnt  bool     `json:"mapent"`  // messages
+	Full   string   `json:"full"`
+	K      string   `json:"k"`      // "m" | "e"
+	File   string   `json:"file"`   // path of the declaring file
+	Vis    bool     `json:"vis"`    // covered by the file's imports (directly or through public imports)
+	Closed bool     `json:"closed"` // enums
+	Vals   []AVal   `json:"vals"`   // enums
+	XR     [][2]int `json:"xr"`     // messages: extension ranges
+	MSet   bool     `json:"mset"`   // messages
+	MapEnt bool     `json:"mapent"` // messages
 }
 
 type AField struct {
@@ -89,18 +89,18 @@ type AOneof struct {
 }
 
 type AMsg struct {
-	Name     string     `json:"name"`
-	Parent   int        `json:"parent"` // 0 = file, k = message k (k < own position)
-	Feat     FS         `json:"feat"`
-	MapEntry bool       `json:"mapentry"`
-	MSet     bool       `json:"mset"`
-	Dep      bool       `json:"dep"`
-	Vis      int        `json:"vis"`
-	Fields   []AField   `json:"fields"`
-	Oneofs   []AOneof   `json:"oneofs"`
-	RR       [][2]int   `json:"rr"` // reserved ranges, end exclusive
-	RN       []string   `json:"rn"`
-	XR       [][2]int   `json:"xr"` // extension ranges, end exclusive
+	Name     string   `json:"name"`
+	Parent   int      `json:"parent"` // 0 = file, k = message k (k < own position)
+	Feat     FS       `json:"feat"`
+	MapEntry bool     `json:"mapentry"`
+	MSet     bool     `json:"mset"`
+	Dep      bool     `json:"dep"`
+	Vis      int      `json:"vis"`
+	Fields   []AField `json:"fields"`
+	Oneofs   []AOneof `json:"oneofs"`
+	RR       [][2]int `json:"rr"` // reserved ranges, end exclusive
+	RN       []string `json:"rn"`
+	XR       [][2]int `json:"xr"` // extension ranges, end exclusive
 	opts     string
 	xropts   []string
 }
@@ -136,20 +136,20 @@ type ASvc struct {
 }
 
 type AFile struct {
-	Path    string  `json:"path"`
-	Pkg     string  `json:"pkg"`
-	Syntax  string  `json:"syntax"`  // "proto2" | "proto3" | "editions" | anything (invalid)
-	Edition int     `json:"edition"` // 0 unless syntax = editions
-	Feat    FS      `json:"feat"`
-	Dep     bool    `json:"dep"`
-	Legacy  bool    `json:"legacy"` // environment: built with -tags protolegacy
-	Deps    []ADep  `json:"deps"`
+	Path    string   `json:"path"`
+	Pkg     string   `json:"pkg"`
+	Syntax  string   `json:"syntax"`  // "proto2" | "proto3" | "editions" | anything (invalid)
+	Edition int      `json:"edition"` // 0 unless syntax = editions
+	Feat    FS       `json:"feat"`
+	Dep     bool     `json:"dep"`
+	Legacy  bool     `json:"legacy"` // environment: built with -tags protolegacy
+	Deps    []ADep   `json:"deps"`
 	OptDeps []string `json:"optdeps"`
-	Imps    []AImp  `json:"imps"`
-	Msgs    []AMsg  `json:"msgs"`
-	Enums   []AEnum `json:"enums"`
+	Imps    []AImp   `json:"imps"`
+	Msgs    []AMsg   `json:"msgs"`
+	Enums   []AEnum  `json:"enums"`
 	Exts    []AField `json:"exts"`
-	Svcs    []ASvc  `json:"svcs"`
+	Svcs    []ASvc   `json:"svcs"`
 	opts    string
 }
 
